@@ -22,9 +22,9 @@ Proof. intro st. unfold on_src. destruct (f (st_src st)) as [[a s']|e]; reflexiv
 
 Lemma keeps_dsge_read k : keeps (dsge_read k).
 Proof.
-  intro st. unfold dsge_read. destruct (tget (st_pos st) k); [|reflexivity].
+  intro st. unfold dsge_read.
   destruct (extend_genes _ _ _ _) as [[l' s']|e]; [|reflexivity].
-  destruct (nth_error l' n); reflexivity.
+  destruct (nth_error l' _); reflexivity.
 Qed.
 
 Lemma keeps_repeatM {A} (f : M A) n : keeps f -> keeps (repeatM n f).
